@@ -837,6 +837,13 @@ def _numfold(t, env):
     return math.ceil(_numfold(a[1][0], env))
   if k == 'call' and a[0].k == 'ext' and a[0].a[0] == 'int' and a[1]:
     return int(_numfold(a[1][0], env))
+  if k == 'call' and a[0].k == 'ext' and a[0].a[0] in ('round', 'numpy.round', 'numpy.rint') and len(a[1]) == 1:
+    return round(_numfold(a[1][0], env))
+  if k == 'call' and a[0].k == 'ext' and a[0].a[0] in ('math.floor', 'numpy.floor') and a[1]:
+    return math.floor(_numfold(a[1][0], env))
+  if k == 'call' and a[0].k == 'ext' and a[0].a[0] in ('max', 'min') and a[1]:
+    vals = [_numfold(z, env) for z in a[1]]
+    return max(vals) if a[0].a[0] == 'max' else min(vals)
   raise guards.Inconclusive(sym.show(t)[:80])
 
 
